@@ -101,3 +101,6 @@ Definition go_copy_to_n (dst : list Z) (lo hi : Z) (src : list Z) : Z := Z.min (
 Definition go_copy_to (dst : list Z) (lo hi : Z) (src : list Z) : list Z :=
   let n := Z.to_nat (go_copy_to_n dst lo hi src) in
   firstn (Z.to_nat lo) dst ++ firstn n src ++ skipn (Z.to_nat lo + n) dst.
+
+(* bytes.ContainsAny(l, chars) for a string of single-byte characters *)
+Definition go_contains_any (l chars : list Z) : bool := existsb (fun c => existsb (Z.eqb c) chars) l.
